@@ -421,6 +421,29 @@ func properties() map[string]*propDef {
 		Rule:           "bounded cache: capacity x initial fill x thread count x object kind, all schedules decided by one stuck-state query per combination of thread paths; sequential: ledger over encoded responses and request decoding for all three providers",
 		RequiredCovers: []string{"threads-analysed", "ran", "read", "encoded"},
 	}
+	m["C12"] = &propDef{
+		ID: "C12",
+		Items: func(tier string, seed int) []item {
+			var out []item
+			for op := 0; op < 4; op++ {
+				for router := 0; router < 2; router++ {
+					for entry := 0; entry < 2; entry++ {
+						for target := 0; target < 2; target++ {
+							out = append(out, item{Harness: "H_C12", Cfg: []int{op, router, entry, target}, Label: "mutator (Add, Remove, Route, RemoveRoute), router, entry (Dispatch/ServeHTTP), request to the changed / another service"})
+						}
+					}
+				}
+			}
+			return out
+		},
+		Bounds: map[string]interface{}{"threads": "2: one request (concrete URL), one mutator operation", "services": 2, "routes_per_service": 2},
+		Assumptions: append([]string{"event-order encoding over 8-bit timestamps: program order, RWMutex sections (writers exclusive, readers shared, a pending writer blocks new readers), adjacency of conflicting accesses = data race",
+			"each thread is executed alone from the state before the mutation (its own control flow does not see the other thread's writes); 'answered according to a state that existed during the request' is therefore only checked as race-freedom plus lock structure, not as a value-level linearizability claim",
+			"the Go memory model is not modelled: race-free programs are assumed sequentially consistent", "ServeMux internals are a stub (the real ServeMux has its own mutex)",
+			"a race reported by the solver is confirmed natively by 200 runs under go test -race before it is printed"}, commonAssumptions...),
+		Rule:           "mutator operation x router x entry point x target; per item one race query per pair of conflicting accesses (store vs load/store of an overlapping location in different threads) and one stuck-state query, over all schedules",
+		RequiredCovers: []string{"threads-analysed", "ran"},
+	}
 	m["C15"] = &propDef{
 		ID: "C15",
 		Items: func(tier string, seed int) []item {
